@@ -12,6 +12,7 @@ from rpmc import seams, net, report, clientworld as cw
 
 rp = seams.import_rp()
 
+import radical.utils as ru                                         # noqa: E402
 from radical.pilot import states    as rps                         # noqa: E402
 from radical.pilot import constants as rpc                         # noqa: E402
 
@@ -47,7 +48,16 @@ ENDINGS = endings()
 
 class World(object):
 
-    def __init__(self, cfg):
+    def __init__(self, cfg, late=False):
+        '''
+        late: the tasks were bound to their pilot by the client side scheduler
+        (no `pilot` in the description): the client learns about them from
+        what the components publish - for a non-final state that is uid, type
+        and state only (the real BaseComponent.advance() is used to produce
+        the messages)
+        '''
+        self.late  = late
+        self.bound = {uid: pid for uid, (pid, _) in zip(UIDS, cfg)}
         net.install()
         self.net = net.Net().activate()
         self.tm  = cw.make_tmgr()
@@ -71,8 +81,43 @@ class World(object):
                     d['exception'] = 'RuntimeError("task failed")'
             if state == rps.NEW:
                 # no state change: binding set the way _update does it
-                if pid:
+                if pid and not late:
                     self.tasks[uid]._pilot = pid
+                continue
+            if late and pid:
+                # the real client side scheduler binds the task
+                # (_assign_pilot) and advances it; later components advance
+                # the same dict; the agent's output stager marks it `$all`
+                # before it hands it back.  The client sees what the real
+                # advance() publishes.
+                sched = self._scheduler()
+                full  = self.tasks[uid].as_dict()
+                doc   = {'uid': pid, 'type': 'pilot',
+                         'description': {'cores': 8,
+                                         'resource': 'local.localhost'},
+                         'pilot_sandbox': '/tmp/rp.verif/%s' % pid}
+                sched._assign_pilot(full, doc)
+                chain = [rps.TMGR_STAGING_INPUT_PENDING]
+                if state == rps.TMGR_STAGING_OUTPUT:
+                    chain += [rps.AGENT_EXECUTING,
+                              rps.TMGR_STAGING_OUTPUT_PENDING, state]
+                elif state in rps.FINAL:
+                    chain += [rps.AGENT_EXECUTING]
+                    full.update(d)
+                    chain.append(state)
+                else:
+                    chain.append(state)
+                for st in chain:
+                    if st == rps.TMGR_STAGING_OUTPUT_PENDING:
+                        full['$all'] = True
+                    n0 = len(self.net.pub_log)
+                    sched.advance([full], st, publish=True, push=False)
+                    for ch, _, msg in self.net.pub_log[n0:]:
+                        if ch == rpc.STATE_PUBSUB:
+                            self.tm._state_sub_cb(rpc.STATE_PUBSUB,
+                                                  seams.wire(msg))
+                assert self.tasks[uid].state == state, \
+                       (uid, state, self.tasks[uid].state)
                 continue
             self.tm._update_tasks([seams.wire(d)])
             assert self.tasks[uid].state == state, (uid, state)
@@ -81,18 +126,33 @@ class World(object):
         self.cb_log = list()
         self.n_pub  = len(self.net.pub_log)
 
+    def _scheduler(self):
+        if getattr(self, '_sched', None) is None:
+            from radical.pilot.tmgr.scheduler.round_robin import RoundRobin
+            sess = self.tm._session
+            sc = seams.bare(RoundRobin, uid='tmgr.0000.scheduling.0')
+            sc._session     = sess
+            sc._reg         = sess._reg
+            sc._tasks       = dict()
+            sc._tasks_lock  = ru.RLock()
+            sc._client_sandbox = '/tmp/rp.verif/client'
+            sc.register_publisher(rpc.STATE_PUBSUB)
+            self._sched = sc
+        return self._sched
+
     def snapshot(self):
-        return {u: (t.state, t.pilot, t.exception, t.exception_detail)
+        # (state, pilot the task IS bound to, exception, detail)
+        return {u: (t.state, self.bound[u], t.exception, t.exception_detail)
                 for u, t in self.tasks.items()}
 
 
-def run_case(part, cfg, ending):
+def run_case(part, cfg, ending, late=False):
 
-    w = World(cfg)
-    replay = {'cfg': [list(c) for c in cfg], 'ending': ending}
+    w = World(cfg, late)
+    replay = {'cfg': [list(c) for c in cfg], 'ending': ending, 'late': late}
     shape  = lambda uid, pid: '%s:%s' % (
-             'own' if w.tasks[uid].pilot == pid else
-             'unbound' if not w.tasks[uid].pilot else 'other',
+             'own' if w.bound[uid] == pid else
+             'unbound' if not w.bound[uid] else 'other',
              'final' if before[uid][0] in rps.FINAL else 'live')
 
     for step in ending:
@@ -131,8 +191,9 @@ def run_case(part, cfg, ending):
             pid = b_pilot if own else step[0][0]
             if own:
                 if a_state != rps.FAILED:
-                    part.violation('own-task-not-failed|_pilot_state_cb|%s:%s'
-                                   % (b_state, kind),
+                    part.violation('own-task-not-failed|_pilot_state_cb|%s:%s%s'
+                                   % (b_state, kind,
+                                      ':late-bound' if late else ''),
                                    {'what': '%s bound to dead pilot %s stays %s'
                                             ' (callback for %s)'
                                             % (uid, pid, a_state, step)},
@@ -178,6 +239,13 @@ def _job(idx):
         for ending in ENDINGS:
             run_case(part, cfg, ending)
             n += 1
+            # the same with tasks bound by the client side scheduler, for the
+            # configurations in which t3 is a fixed bystander
+            if cfg[2] == (None, rps.NEW) and not any(
+                    pid and st in (rps.NEW, rps.TMGR_SCHEDULING)
+                    for pid, st in cfg):
+                run_case(part, cfg, ending, late=True)
+                n += 1
     part.cover(evaluations=n)
     if lo == 0:
         part.sample({'tasks (pilot, state)': _cfgs[lo], 'ending': ENDINGS[2]})
@@ -347,11 +415,13 @@ def replay(ctx, data):
             print('VIOLATED', key, detail['what'])
         return 1 if res['violations'] else 0
     part = report.Part()
-    cfg = [tuple(c) for c in r['cfg']]
+    cfg = [tuple(c) if c[0] is None or isinstance(c[0], str) else tuple(c)
+           for c in r['cfg']]
+    cfg = [(c[0], c[1]) for c in cfg]
     ending = [tuple(tuple(x) if isinstance(x, list) else x for x in e)
               for e in r['ending']]
-    run_case(part, cfg, ending)
-    print('cfg', cfg, 'ending', ending)
+    run_case(part, cfg, ending, late=bool(r.get('late')))
+    print('cfg', cfg, 'ending', ending, 'late', r.get('late'))
     for k, (d, _) in part.violations.items():
         print('VIOLATED', k, d['what'])
     return 1 if part.violations else 0
